@@ -3,7 +3,7 @@
 HOOK_COMMITS = ['afbbdb338']
 
 ENGINES = [
-    dict(name='E4-TSE', path='engine/vsrt/vsrt.cpp, engine/tse.hpp', serves_properties=['C03', 'C04', 'C18', 'C19'],
+    dict(name='E4-TSE', path='engine/vsrt/vsrt.cpp, engine/tse.hpp', serves_properties=['C01', 'C03', 'C04', 'C18', 'C19'],
          kind_free_text='stateless preemption-bounded exploration of thread schedules of the real implementation: libvsrt serialises real std::threads (futex hand-off), interposes pthread/once/guards/'
                         'sleep/clock, implements the __tsan_* ABI with a vector-clock happens-before monitor; tse.hpp runs every schedule in a forked child and iterates the site sets to a fixpoint'),
     dict(name='E1-DBE', path='engine/choice.hpp', serves_properties=['C01', 'C02', 'C03', 'C04', 'C08', 'C15', 'C16', 'C17', 'C20'],
@@ -32,7 +32,8 @@ HARNESSES = {
     'C03': [dict(name='c03_interrupt', src=['C03_interrupt.cpp'], flavour='asan', ldflags=['-rdynamic']),
             dict(name='c03_threads', src=['C19_threads.cpp'], flavour='tsi', cflags=['-DSCEN_C03'], ldflags=['-rdynamic']),
             dict(name='c03_control', src=['C03_control.cpp'], flavour='asan', ldflags=['-rdynamic'])],
-    'C01': [dict(name='c01_geometric', src=['C01_geometric.cpp'], flavour='asan')],
+    'C01': [dict(name='c01_geometric', src=['C01_geometric.cpp'], flavour='asan'),
+            dict(name='c01_threads', src=['C19_threads.cpp'], flavour='tsi', cflags=['-DSCEN_C01'], ldflags=['-rdynamic'])],
     'C09': [dict(name='c09_copy', src=['C09_copy.cpp'], flavour='asan')],
     'C08': [dict(name='c08_bounds', src=['C08_bounds.cpp'], flavour='asan')],
     'C07': [dict(name='c07_interp', src=['C07_interp.cpp'], flavour='asan')],
@@ -140,11 +141,12 @@ PROPERTY_META = {
                    'sequential consistency, no leak accounting there.'),
     'C01': dict(
         deadline_quick=420, deadline_thorough=1700, engine='E1-DBE', design_ref='5/C01',
-        technique='deviation-bounded exhaustive exploration of every random answer and state sample of the real planners (choice oracle), independent dense path oracle on every execution',
+        technique='deviation-bounded exhaustive exploration of every random answer and state sample of the real planners (choice oracle), independent dense path oracle on every execution; the always-multi-threaded planners (PRM, PRM*, SPARS, SPARStwo) under ALL thread schedules with <= P preemptions (E4 schedule explorer) with the same oracle',
         level_text='33 single-threaded geometric planners x 16+ configurations (9 maps incl. corner-cut diagonal, U-trap, corridor, enclosed goal, obstacle on start/goal; R^2, SE(2), Dubins, '
                    'Reeds-Shepp; goal state/states/unsampleable region; thresholds, ranges, resolutions): every execution with <= D deviations among the first N choice points plus the full '
-                   'product over the first state samples, each on fresh objects with termination at a fixed evaluation index; crashes/hangs isolated in forked children and replayed alone.',
-        level_note=DBE_NOTE),
+                   'product over the first state samples, each on fresh objects with termination at a fixed evaluation index; crashes/hangs isolated in forked children and replayed alone. '
+                   'PRM, PRM*, SPARS, SPARStwo: 3 maps x budgets {8,34} (thorough {3,8,13,21,34,55}) x solve + continued solve x every schedule with <= 1 (thorough 2) preemptions.',
+        level_note=DBE_NOTE + ' Threaded planners: trusted libvsrt, sequential consistency, default answer stream per thread.'),
     'C08': dict(
         deadline_quick=300, deadline_thorough=1500, engine='E1-DBE', design_ref='5/C08',
         technique='exhaustive products of boundary-value inputs for enforceBounds; for every sampler call, full product of oracle answers over the first draws plus all <=2-deviation answer streams (RNG hook H1)',
